@@ -127,16 +127,18 @@ class IndividualParameters:
                 np.float64,
             ]
 
-            scalar_type = type(v)
+            # for a list, the type of every element is checked (an empty list is refused)
+            scalar_types = [type(v)]
             if isinstance(v, list):
-                scalar_type = None if len(v) == 0 else type(v[0])
+                scalar_types = [None] if len(v) == 0 else [type(e) for e in v]
             # elif isinstance(v, np.ndarray):
             #    scalar_type = v.dtype
 
-            if scalar_type not in valid_scalar_types:
-                raise LeaspyIndividualParamsInputError(
-                    f"Incorrect dictionary value. Error for key: {k} -> scalar type {scalar_type}"
-                )
+            for scalar_type in scalar_types:
+                if scalar_type not in valid_scalar_types:
+                    raise LeaspyIndividualParamsInputError(
+                        f"Incorrect dictionary value. Error for key: {k} -> scalar type {scalar_type}"
+                    )
 
         # Fix/check parameters nomenclature and shapes
         # (scalar or 1D arrays only...)
